@@ -39,12 +39,18 @@ Proof. exact enc_request_conforms_l. Qed.
 Print Assumptions encoded_request_conforms.
 
 (* 3. arrayType's length is the number of item children, for every list
-   anywhere in the request, the empty one included *)
+   anywhere in the request, the empty one included -- for EVERY input the
+   marshaller accepts, no conformance hypothesis (in the duplicated-member
+   quirk the arrayType lands on the wrong copy, but with the right length) *)
 Theorem array_length_exact : forall S m v ns,
-  enc_conforming S m v = true -> enc_param S m v = MOk ns ->
-  forallb lengths_exact ns = true.
-Proof. exact array_length_exact_l. Qed.
+  enc_param S m v = MOk ns -> forallb lengths_exact ns = true.
+Proof. exact array_length_exact_all_l. Qed.
 Print Assumptions array_length_exact.
+
+Theorem request_array_lengths_exact : forall S bodyns method parts args body,
+  enc_body S bodyns method parts args = MOk body -> lengths_exact body = true.
+Proof. exact request_lengths_exact_l. Qed.
+Print Assumptions request_array_lengths_exact.
 
 (* 4. every element of the request carries an xsi:type *)
 Theorem every_element_typed : forall S m v ns,
@@ -61,6 +67,20 @@ Theorem empty_array_is_sent : forall S m T,
   MOk [EX (mem_ns m) (m_name m) [xsi_type (tref_qn (m_type m)); aty_attr T 0] None []].
 Proof. exact empty_array_is_sent_l. Qed.
 Print Assumptions empty_array_is_sent.
+
+(* None: omitted when the accessor is optional (message parts always are),
+   otherwise an empty typed accessor, xsi:nil when nillable *)
+Theorem none_is_nil_or_omitted : forall S m,
+  enc_param S m VNone =
+  MOk (if m_opt m then []
+       else [EX (mem_ns m) (m_name m)
+               (xsi_type (tref_qn (m_type m)) :: if m_nil m then [enil_attr] else []) None []]) /\
+  ref_elem S m VNone =
+  Some (if m_opt m then []
+        else [EX (mem_ns m) (m_name m)
+                (xsi_type (tref_qn (m_type m)) :: if m_nil m then [enil_attr] else []) None []]).
+Proof. exact none_rule_l. Qed.
+Print Assumptions none_is_nil_or_omitted.
 
 (* 6. the node written for a list *)
 Theorem array_node_shape : forall S m T l,
